@@ -878,4 +878,68 @@ func c12Eval(r *core.Run) {
 		}
 	}
 	r.Floor("C12.EVAL", "writes and returns of the symbolic evaluator", n, 6)
+	c12Build(r)
+}
+
+// c12Build: the summary of a value and the arithmetic done on summaries agree with Go's integer semantics.
+// (kinds) The builder looks into a value only for the reviewed kinds — constants, header phis and binary
+// operations; any other kind it opens (a conversion, a unary operation, a field load) is summarised as something it
+// is not unless the rule below knows why that is exact. (division) Go's integer division truncates towards zero:
+// big.Int's Quo/Rem, never the Euclidean Div/Mod/DivMod, anywhere in the package.
+func c12Build(r *core.Run) {
+	p := r.P
+	allowed := map[string]string{
+		"ssa.Const": "literal value",
+		"ssa.Phi":   "a header phi recorded as induction variable becomes {start,+,step}; any other phi stays unknown",
+		"ssa.BinOp": "summarised operand-wise; the evaluator returns 'unknown' for operators it does not implement",
+	}
+	n := 0
+	for _, fn := range p.FuncsIn("pkg/analysis/loop") {
+		rt := resultTypes(fn)
+		if len(rt) != 1 || !strings.HasSuffix(rt[0].String(), "loop.SCEV") {
+			continue
+		}
+		takesValue := false
+		for _, pa := range fn.Params {
+			if strings.HasSuffix(pa.Type().String(), "ssa.Value") {
+				takesValue = true
+			}
+		}
+		if !takesValue {
+			continue
+		}
+		core.InstrsOf(fn, func(in ssa.Instruction) {
+			ta, ok := in.(*ssa.TypeAssert)
+			if !ok || !strings.HasSuffix(ta.X.Type().String(), "ssa.Value") {
+				return
+			}
+			if _, isIface := ta.AssertedType.Underlying().(*types.Interface); isIface {
+				return
+			}
+			kind := core.TypeName(ta.AssertedType)
+			n++
+			why, isOK := allowed[kind]
+			r.Check(isOK, "C12.BUILD", core.FuncName(fn)+"#opens("+kind+")", ta.Pos(), "summarised kind: "+why,
+				"the symbolic summary looks into a value of kind "+kind+", which is not among the reviewed kinds (constant, header phi, binary operation): e.g. an integer conversion narrows or reinterprets its operand, so summarising the operand instead gives start values, limits and trip counts that concrete execution does not have")
+		})
+	}
+	r.Floor("C12.BUILD", "value kinds opened by the summary builder", n, 3)
+	nDiv := 0
+	for _, fn := range p.FuncsIn("pkg/analysis/loop") {
+		core.InstrsOf(fn, func(in ssa.Instruction) {
+			c := core.CallOf(in)
+			if c == nil {
+				return
+			}
+			switch name := core.CalleeName(c); name {
+			case "(*math/big.Int).Quo", "(*math/big.Int).Rem", "(*math/big.Int).QuoRem":
+				nDiv++
+				r.OK("C12.BUILD", core.FuncName(fn)+"#division("+strings.TrimPrefix(name, "(*math/big.Int).")+")", in.Pos(), "truncated division, as Go's / and %")
+			case "(*math/big.Int).Div", "(*math/big.Int).Mod", "(*math/big.Int).DivMod":
+				nDiv++
+				r.Fail("C12.BUILD", core.FuncName(fn)+"#division("+strings.TrimPrefix(name, "(*math/big.Int).")+")", in.Pos(), "Euclidean division ("+name+") where Go's integer division truncates towards zero: -7/2 is -3 in the program and -4 in the summary")
+			}
+		})
+	}
+	r.Floor("C12.BUILD", "big-integer divisions in the loop package", nDiv, 1)
 }
